@@ -25,24 +25,24 @@ RawCodes == {LRawReq, LRawInd, LRawCon, LBusmonInd}
 
 U16(hi, lo) == hi * 256 + lo
 Hi(x) == x \div 256
-Lo(x) == x % 256
+Lo(x) == (x % 256)
 Min2(a, b) == IF a < b THEN a ELSE b
 
 \* ---- control fields -------------------------------------------------------
 Ctrl1(std, noRepeat, noSysBcast, prio, ack, err) == 128 * std + 32 * noRepeat + 16 * noSysBcast + 4 * prio + 2 * ack + err
 Ctrl2(group, hops, ext) == 128 * group + 16 * hops + ext
 C1Std(c) == c \div 128
-C1NoRepeat(c) == (c \div 32) % 2
-C1NoSysBcast(c) == (c \div 16) % 2
-C1Prio(c) == (c \div 4) % 4
-C1Ack(c) == (c \div 2) % 2
-C1Err(c) == c % 2
+C1NoRepeat(c) == ((c \div 32) % 2)
+C1NoSysBcast(c) == ((c \div 16) % 2)
+C1Prio(c) == ((c \div 4) % 4)
+C1Ack(c) == ((c \div 2) % 2)
+C1Err(c) == (c % 2)
 C2Group(c) == c \div 128
-C2Hops(c) == (c \div 16) % 8
-C2Ext(c) == c % 16
+C2Hops(c) == ((c \div 16) % 8)
+C2Ext(c) == (c % 16)
 
 \* helper functions of the library, over their complete 8-bit domains
-RefControl1Prio(p) == (p % 4) * 4
+RefControl1Prio(p) == ((p % 4)) * 4
 RefControl2Hops(h) == Min2(h, 7) * 16
 RefHops(c2) == C2Hops(c2)
 RefIsGroupAddr(c2) == C2Group(c2) = 1
@@ -54,10 +54,10 @@ RefIsGroupCommand(apci) == apci < 3
 AppData(d) == IF Len(d) = 0 THEN <<0>> ELSE IF Len(d) > 255 THEN SubSeq(d, 1, 255) ELSE d
 EncApp(numbered, seqn, apci, d) ==
   LET dd == AppData(d)
-      tpci == IF numbered = 1 THEN 64 + 4 * (seqn % 16) ELSE 0
-  IN <<Len(dd), tpci + (apci \div 4) % 4, (apci % 4) * 64 + dd[1] % 64>> \o Tail(dd)
+      tpci == IF numbered = 1 THEN 64 + 4 * ((seqn % 16)) ELSE 0
+  IN <<Len(dd), tpci + ((apci \div 4) % 4), ((apci % 4)) * 64 + (dd[1] % 64)>> \o Tail(dd)
 EncCtl(numbered, seqn, cmd) ==
-  <<0, 128 + (IF numbered = 1 THEN 64 + 4 * (seqn % 16) ELSE 0) + cmd % 4>>
+  <<0, 128 + (IF numbered = 1 THEN 64 + 4 * ((seqn % 16)) ELSE 0) + (cmd % 4)>>
 
 \* ---- L_Data ------------------------------------------------------------------
 InfoPart(info) == IF Len(info) > 255 THEN <<255>> \o SubSeq(info, 1, 255) ELSE <<Len(info)>> \o info
@@ -71,8 +71,8 @@ SizeLData(f) == Len(EncLData(f))
 Canon(f) ==
   [code |-> f.code, info |-> IF Len(f.info) > 255 THEN SubSeq(f.info, 1, 255) ELSE f.info, c1 |-> f.c1, c2 |-> f.c2,
    src |-> f.src, dst |-> f.dst, kind |-> f.kind, numbered |-> f.numbered,
-   seqn |-> IF f.numbered = 1 THEN f.seqn % 16 ELSE 0,
-   cmd |-> IF f.kind = "app" THEN f.cmd % 16 ELSE f.cmd % 4,
+   seqn |-> IF f.numbered = 1 THEN (f.seqn % 16) ELSE 0,
+   cmd |-> IF f.kind = "app" THEN (f.cmd % 16) ELSE (f.cmd % 4),
    data |-> IF f.kind = "app" THEN [i \in 1..Len(AppData(f.data)) |-> IF i = 1 THEN AppData(f.data)[1] % 64 ELSE AppData(f.data)[i]] ELSE << >>]
 
 Err == [err |-> TRUE]
@@ -92,12 +92,12 @@ DecLData(b) ==
   IN IF tp \div 128 = 1
      THEN IF Len(b) # p + 8 THEN Err
           ELSE [code |-> b[1], info |-> info, c1 |-> c1, c2 |-> c2, src |-> src, dst |-> dst, kind |-> "ctl",
-                numbered |-> (tp \div 64) % 2, seqn |-> (tp \div 4) % 16, cmd |-> tp % 4, data |-> << >>]
+                numbered |-> ((tp \div 64) % 2), seqn |-> ((tp \div 4) % 16), cmd |-> (tp % 4), data |-> << >>]
      ELSE IF l < 1 \/ Len(b) # p + 8 + l THEN Err
           ELSE LET a == b[p+9] IN
                [code |-> b[1], info |-> info, c1 |-> c1, c2 |-> c2, src |-> src, dst |-> dst, kind |-> "app",
-                numbered |-> (tp \div 64) % 2, seqn |-> (tp \div 4) % 16, cmd |-> (tp % 4) * 4 + a \div 64,
-                data |-> <<a % 64>> \o SubSeq(b, p + 10, p + 8 + l)]
+                numbered |-> ((tp \div 64) % 2), seqn |-> ((tp \div 4) % 16), cmd |-> ((tp % 4)) * 4 + a \div 64,
+                data |-> <<(a % 64)>> \o SubSeq(b, p + 10, p + 8 + l)]
 
 \* ---- raw message kinds -----------------------------------------------------------
 EncRaw(code, d) == <<code>> \o d
@@ -105,7 +105,7 @@ EncRaw(code, d) == <<code>> \o d
 \* ---- theorems TLC checks on this module (MC_Codec) -----------------------------------
 RoundTrip(f) == DecLData(EncLData(f)) = Canon(f)
 CtrlIdentities ==
-  /\ \A c \in 0..255 : Ctrl1(C1Std(c), C1NoRepeat(c), C1NoSysBcast(c), C1Prio(c), C1Ack(c), C1Err(c)) + 64 * ((c \div 64) % 2) = c
+  /\ \A c \in 0..255 : Ctrl1(C1Std(c), C1NoRepeat(c), C1NoSysBcast(c), C1Prio(c), C1Ack(c), C1Err(c)) + 64 * (((c \div 64) % 2)) = c
   /\ \A c \in 0..255 : Ctrl2(C2Group(c), C2Hops(c), C2Ext(c)) = c
   /\ \A h \in 0..255 : RefHops(RefControl2Hops(h)) = Min2(h, 7)
 =============================================================================
